@@ -119,7 +119,7 @@ def check_run(R, P, result, history, pset, instr):
         for c in view.comps:
             if c["pop"] in prog.target_pops and c["name"] in prog.target_comps:
                 e = e + c["vals"]
-        if k in elig and not np.allclose(elig[k], e, rtol=1e-12, atol=1e-12):
+        if k in elig and not np.allclose(elig[k], e, rtol=1e-12, atol=1e-12, equal_nan=True):
             R.bad("reported-eligible", "C13:reported-eligible-differs", {"program": k, "got": np.asarray(elig[k])[:5].tolist(), "expected": e[:5].tolist()})
         else:
             R.ok("reported-eligible")
